@@ -12,7 +12,10 @@ LONG = ','.join(['memset.0:200', 'memcmp.0:18', '_ZL10copy_bytesPhPKhj.0:18', '_
                  ] + ['_ZN6asmjit5v1_219ConstPool3addEPKvmNS0_3OutImEE.%d:8' % i for i in (1, 2, 3)] + ['_ZN6asmjit5v1_219ConstPool3addEPKvmNS0_3OutImEE.%d:6' % i for i in (22, 23, 24)] + [
                  '_ZL11check_imagePKhmPK5Entryj.0:58', '_ZL11check_imagePKhmPK5Entryj.1:58', '_ZL11fresh_bytesPh.0:18', '_ZL5paintPh.0:58'])
 MLONG = ','.join(['verif_memset_n.0:60', 'verif_memcpy_n.0:20', 'memcmp.0:18', '_ZL10copy_bytesPhPKhj.0:18', '_ZL10keep_bytesR5EntryPKhm.0:34', '_ZL10part_equalRK5EntryS1_.0:34', '_ZL10same_bytesPKhS0_m.0:34',
-                  '_ZL11check_imagePKhmPK5Entryj.0:58', '_ZL11check_imagePKhmPK5Entryj.1:58', '_ZL11fresh_bytesPh.0:18', '_ZL5paintPh.0:58', '_ZL8env_arenav.0:22'])
+                  '_ZL11check_imagePKhmPK5Entryj.0:58', '_ZL11check_imagePKhmPK5Entryj.1:58', '_ZL11fresh_bytesPh.0:18', '_ZL5paintPh.0:58',
+                  # fill(): the loop over the 7 trees, and the walk of one tree (at most 4 nodes here)
+                  '_ZL7do_fillRKN6asmjit5v1_219ConstPoolEPh.4:8'] + ['_ZN6asmjit5v1_219ConstPool3addEPKvmNS0_3OutImEE.%d:8' % i for i in (1, 2, 3)] +  # add(): walk over the gap size classes
+                  ['_ZL7do_fillRKN6asmjit5v1_219ConstPoolEPh.%d:6' % i for i in range(4)])
 BM = 'model tree (typed links, no balancing); add sizes %s from the empty pool, 16 symbolic data bytes per add (a later add may repeat an earlier constant, share its first 4 bytes, or be its bytes 4..7 / 8..15), %s into a guarded 56-byte image'
 B = 'add sizes %s from the empty pool, 16 symbolic data bytes per add (a later add may repeat the first constant, its upper half or its bytes 4..7), then (sequences 1,4,2 / 1,8,1 / 2,65 / 0,3 only) fill() into a guarded 56-byte image'
 HARNESSES = [
@@ -23,7 +26,7 @@ HARNESSES = [
     Harness('pool', 'h_pool_8_lookup', unwind=5, unwindset=LONG + ''.join(',h_pool_8_lookup.%d:%d' % (i, 22 if i < 2 else 9) for i in range(24)), mem_gb=7, timeout=1200,
             bounds='one add of 8 symbolic bytes, then the pool\'s own lookup (Tree::get) for both 4-byte halves and for 4 arbitrary bytes'),
 ] + [
-    Harness('poolm', 'h_poolm_' + nm, unwind=9, unwindset=MLONG, mem_gb=6, timeout=900, bounds=BM % (nm.replace('_', ','), fill))
+    Harness('poolm', 'h_poolm_' + nm, unwind=5, unwindset=MLONG + ''.join(',h_poolm_%s.%d:9' % (nm, i) for i in range(12)), mem_gb=6, timeout=900, bounds=BM % (nm.replace('_', ','), fill))
     for nm, fill in (('8_8_4', 'no fill()'), ('1_4_1_1_1', 'then fill()'), ('4_4_4_4', 'then fill()'), ('16_8_4', 'then fill()'), ('4_8_4', 'then fill()'), ('1_8_1', 'then fill()'))
 ]
 EXPLANATION = 'bounded symbolic execution (CBMC) of the real ConstPool::add / fill compiled from /repo; offsets and the written image are compared with a list of the constants kept by the harness'
